@@ -459,8 +459,12 @@ static void vorbis_encode_residue_setup(vorbis_info *vi,
   codec_setup_info *ci=vi->codec_setup;
   int i;
 
-  vorbis_info_residue0 *r=ci->residue_param[number]=
-    _ogg_malloc(sizeof(*r));
+  vorbis_info_residue0 *r;
+
+  /* a residue slot can be named by more than one mode or submap (the
+     LFE residue of the 5.1 mappings is); don't leak the earlier copy */
+  if(ci->residue_param[number])_ogg_free(ci->residue_param[number]);
+  r=ci->residue_param[number]=_ogg_malloc(sizeof(*r));
 
   memcpy(r,res->res,sizeof(*r));
   if(ci->residues<=number)ci->residues=number+1;
